@@ -40,6 +40,19 @@ Definition query_ok (k : N) (iss : issued) (own : bool) (c : N) (a : answer) : b
               (firstn (N.to_nat (N.min (N.max k 1) (N.of_nat (length iss)))) iss))
   end.
 
+(* the ASPA part of a change set, judged like the route origin part: applied to the ASPAs issued under the
+   presented serial it yields exactly the current ASPAs (whether the query had to be answered at all is
+   query_ok's business) *)
+Definition aspa_answer := option (list (N * list N * bool)).
+Definition aspa_query_ok (iss : issued) (c : N) (a : aspa_answer) : bool :=
+  match a with
+  | Some acts => match find_issued c iss, iss with
+                 | Some g, (_, cur) :: _ => kl_eqb nlist_eqb (wapply (aspas g) acts) (aspas cur)
+                 | _, _ => true
+                 end
+  | None => true
+  end.
+
 Record case := {
   c_keep : N;
   c_init : option (N * snapshot * snapshot);
@@ -48,7 +61,8 @@ Record case := {
   i_ready0 : bool; i_ready : bool;
   i_serial : N;
   i_full : snapshot;
-  i_answers : list (bool * N * answer) }.
+  i_answers : list (bool * N * answer);
+  i_aspa_answers : list (bool * N * aspa_answer) }.    (* the ASPA actions of the same answers *)
 
 Definition start_issued (c : case) : issued :=
   match c_init c with Some (s0, a, b) => [(sadd s0 1, b); (s0, a)] | None => [] end.
@@ -79,6 +93,7 @@ Definition spec_okb (c : case) : bool :=
   && match iss with
      | [] => true
      | _ => forallb (fun q => let '(own, s, a) := q in query_ok (c_keep c) iss own s a) (i_answers c)
+            && forallb (fun q => let '(_, s, a) := q in aspa_query_ok iss s a) (i_aspa_answers c)
      end.
 
 (* ---- the model on the same inputs ---- *)
@@ -100,6 +115,19 @@ Definition model_answer (h : hist) (own : bool) (c : N) : answer :=
   | None => None
   end.
 
+Definition model_aspa_answer (h : hist) (own : bool) (c : N) : aspa_answer :=
+  match diff h own c with
+  | Some (_, d) => Some (wire_of (d_aspas d))
+  | None => None
+  end.
+
+Definition aans_eqb (a b : aspa_answer) : bool :=
+  match a, b with
+  | None, None => true
+  | Some x, Some y => wl_eqb nlist_eqb x y
+  | _, _ => false
+  end.
+
 Definition ans_eqb (a b : answer) : bool :=
   match a, b with
   | None, None => true
@@ -119,7 +147,8 @@ Definition model_agrees (c : case) : bool :=
   upd_eqb obs (i_updates c)
   && Bool.eqb (is_active h) (i_ready c) && (serial h =? i_serial c)
   && match current h with Some g => snap_eqb g (i_full c) | None => true end
-  && forallb (fun q => let '(own, s, a) := q in ans_eqb (model_answer h own s) a) (i_answers c).
+  && forallb (fun q => let '(own, s, a) := q in ans_eqb (model_answer h own s) a) (i_answers c)
+  && forallb (fun q => let '(own, s, a) := q in aans_eqb (model_aspa_answer h own s) a) (i_aspa_answers c).
 
 Definition inputs_ok (c : case) : bool :=
   forallb snap_sortedb (c_updates c)
@@ -127,7 +156,8 @@ Definition inputs_ok (c : case) : bool :=
      | Some (s0, a, b) => snap_sortedb a && snap_sortedb b && negb (snap_eqb a b) && (s0 <? M32)
      | None => true
      end
-  && forallb (fun q => let '(_, s, _) := q in s <? M32) (i_answers c).
+  && forallb (fun q => let '(_, s, _) := q in s <? M32) (i_answers c)
+  && forallb (fun q => let '(_, s, _) := q in s <? M32) (i_aspa_answers c).
 
 Definition check_case (c : case) : N :=
   if negb (inputs_ok c) then 9
